@@ -30,6 +30,10 @@ impl Monitor for C06 {
     fn prop(&self) -> &'static str {
         "C06"
     }
+    fn scalable(&self, g: &str) -> bool {
+        let _ = g;
+        true
+    }
     fn gens(&self, tier: Tier) -> Vec<Gen> {
         vec![gen("single-fault", tier.pick(600, 200_000, 3)), gen("double-fault", tier.pick(60, 30_000, 0)), gen("expiry", tier.pick(300, 50_000, 2)), gen("long-silence", tier.pick(54, 2_000, 0))]
     }
